@@ -288,9 +288,15 @@ class C19(Check):
         log, fetch, old = self.run_impl(cssutils, case, texts, main_text)
         res = []
         try:
-            with time_limit(30):
-                parser = cssutils.CSSParser(fetcher=fetch)
-                sheet = parser.parseString(main_text, href=case['href'])
+            try:
+                with time_limit(30):
+                    parser = cssutils.CSSParser(fetcher=fetch)
+                    sheet = parser.parseString(main_text, href=case['href'])
+            except (RecursionError, xml.dom.DOMException, OSError, TypeError, AttributeError, KeyError,
+                    IndexError) as e:
+                ctx.case(key=('flatten', main_text, tuple(sorted(texts.items()))), kind='flatten:parse-raises')
+                ctx.violate('loading the import tree ends and does not raise', w, {'exception': repr(e)[:300]})
+                return []
             # the texts must denote the abstract sheets (C02's business otherwise)
             if S.shallow(S.p_rules(sheet.cssRules, deep=False)) != S.shallow(case['main']):
                 ctx.count('flatten:render-parse-mismatch')
@@ -324,6 +330,11 @@ class C19(Check):
             except (xml.dom.HierarchyRequestErr, ValueError, UnicodeError) as e:
                 got = show_exc(e)
                 exc = e
+            except (RecursionError, xml.dom.DOMException, OSError, TypeError, AttributeError, KeyError,
+                    IndexError) as e:
+                ctx.violate('resolveImports returns the flattened sheet (it does not raise)', w,
+                            {'exception': repr(e)[:300]})
+                return res
             res.append(('resolve' + head[5:], '%s | %s | %s' % (got, show_log(log[n_parse:]), show_log(log[:n_parse]))))
             # oracle: flattening preserves meaning
             if exc is not None:
